@@ -754,4 +754,25 @@ theorem check_verifies (f : Fn) (h : check f = .ok ()) : ∃ ann, verify f ann =
       · cases h
       · split at h <;> cases h
 
+/-- Whenever a verified function is (back) at its first instruction — a self tail call jumped
+there — its part of the data stack holds exactly the arguments and no scope is open: every
+iteration of a tail-recursive loop starts at the depths of the first one. -/
+theorem inv_at_pc0 (f : Fn) (ann : Ann) (hv : Verified f ann) (D : List Cell) (S A : Nat) (c : CState)
+    (hinv : Inv ann D S A c) (hpc : c.pc = 0) :
+    c.data = List.replicate f.entryCount .val ++ D ∧ c.sc = S := by
+  obtain ⟨a, own, hann, hdata, hconc, hsc, _⟩ := hinv
+  obtain ⟨t, ht, hle⟩ := hv.entry
+  rw [hpc, ht] at hann
+  cases hann
+  obtain ⟨hk, hb, hf⟩ := le_elim f.entry a hle
+  have hfr : a.frames = [] := by
+    cases hfs : a.frames with
+    | nil => rfl
+    | cons x xs => rw [hfs] at hf; simp [Fn.entry, framesLe] at hf
+  rw [hfr] at hconc
+  cases hconc
+  refine ⟨?_, ?_⟩
+  · rw [hdata, ← hb]; rfl
+  · rw [hsc, ← hk]; rfl
+
 end ZygoVerif.Bal
